@@ -3,9 +3,17 @@
 //   new | block | sec <parent|-1> <name s:hex> <type s:hex> | prop <sec> <name s:hex> | link <sec> <target>
 //   src <block> <parent|-1> <name> <type> | array <block> | tag <block> | mtag <block>
 //   meta <B|A|T|M|R><i> <sec> | addsrc <A|T|M><i> <src> | delsec <sec> | delsrc <src>
-//   findsec <S<i>|file> <depth|max> <filter> | findsrc <R<i>|B<i>> <depth|max> <filter> | related <sec> <filter>
-//   inherited <sec> | refblocks|refarrays|reftags|refmtags|refsources <sec> | srcarrays|srctags|srcmtags <src> | parent <src>
+//   peek <S|R|B><i>      fetch an independent handle of the entity now, let it look at its (possibly still empty)
+//                        containers (child / property / array / tag / multi-tag / source counts) and keep it alive
+//   reopen <ro|rw>       close the file and open it again read-only / read-write; every handle is fetched anew
+//   [@c|@e|@f|@p] findsec <S<i>|file> <depth|max> <filter> | findsrc <R<i>|B<i>> <depth|max> <filter> | related <sec> <filter>
+//   [@..] inherited <sec> | refblocks|refarrays|reftags|refmtags|refsources <sec> | srcarrays|srctags|srcmtags <src> | parent <src>
 //   filter: all | id <ref> | name <s:hex> | type <s:hex> | ids <n> <ref>...     ref: S<i> | R<i> | X | N
+// Handle routes of a query (the answer must not depend on them):
+//   @c the handle the entity was created through (after a reopen: the handle fetched at the reopen)
+//   @e the handle kept by the last `peek` of the entity (falls back to @c)
+//   @f a handle fetched right now, by name, from the file downwards
+//   @p a handle fetched right now through the parent's peeked handle (block's peeked handle for a root source)
 // Every entity is named by its creation ordinal (k-th line of its kind); real ids never leave the driver.
 // Results are printed in the order the API returns them: "<count> <ordinal>...".  Timestamps are not observed.
 // References to deleted entities are refused here (std::runtime_error) before any library call.
@@ -18,15 +26,15 @@ using namespace nixv;
 
 static std::string workdir;
 
-struct SecInfo { nix::Section h; int parent; bool alive; std::string id; };
-struct SrcInfo { nix::Source h; int parent; int block; bool alive; std::string id; };
-template<typename T> struct EntInfo { T h; int block; std::string id; };
+struct SecInfo { nix::Section h, early; bool has_early; int parent; bool alive; std::string id, name; };
+struct SrcInfo { nix::Source h, early; bool has_early; int parent; int block; bool alive; std::string id, name; };
+struct BlkInfo { nix::Block h, early; bool has_early; std::string name; nix::DataArray pos; bool has_pos; };
+template<typename T> struct EntInfo { T h; int block; std::string id, name; };
 
 static nix::File file;
 static std::vector<SecInfo> secs;
 static std::vector<SrcInfo> srcs;
-static std::vector<nix::Block> blocks;
-static std::vector<nix::DataArray> positions;          // hidden positions array of each block (for multi-tags)
+static std::vector<BlkInfo> blocks;
 static std::vector<EntInfo<nix::DataArray>> arrays;
 static std::vector<EntInfo<nix::Tag>> tags;
 static std::vector<EntInfo<nix::MultiTag>> mtags;
@@ -34,11 +42,57 @@ static int nprops = 0;
 static std::unordered_map<std::string, int> ord_sec, ord_src, ord_blk, ord_arr, ord_tag, ord_mtag, ord_prop;
 
 static void dead() { throw std::runtime_error("reference to a deleted or unknown entity"); }
+static void lost(const std::string &what) { throw std::logic_error("handle route lost the entity: " + what); }
 
 static SecInfo &live_sec(long k) { if (k < 0 || k >= (long)secs.size() || !secs[k].alive) dead(); return secs[k]; }
 static SrcInfo &live_src(long k) { if (k < 0 || k >= (long)srcs.size() || !srcs[k].alive) dead(); return srcs[k]; }
-static nix::Block &live_blk(long k) { if (k < 0 || k >= (long)blocks.size()) dead(); return blocks[k]; }
+static BlkInfo &live_blk(long k) { if (k < 0 || k >= (long)blocks.size()) dead(); return blocks[k]; }
 static long tailnum(const std::string &t) { return dec_int(t.substr(1)); }
+
+// ---- handle routes
+static nix::Section need(const nix::Section &s, const std::string &w) { if (!s) lost(w); return s; }
+static nix::Source need(const nix::Source &s, const std::string &w) { if (!s) lost(w); return s; }
+static nix::Block need(const nix::Block &s, const std::string &w) { if (!s) lost(w); return s; }
+
+static nix::Section fresh_sec(long k) {
+    SecInfo &s = secs[k];
+    if (s.parent < 0) return need(file.getSection(s.name), "file.getSection");
+    return need(fresh_sec(s.parent).getSection(s.name), "fresh section.getSection");
+}
+static nix::Block fresh_blk(long b) { return need(file.getBlock(blocks[b].name), "file.getBlock"); }
+static nix::Source fresh_src(long k) {
+    SrcInfo &s = srcs[k];
+    if (s.parent < 0) return need(fresh_blk(s.block).getSource(s.name), "fresh block.getSource");
+    return need(fresh_src(s.parent).getSource(s.name), "fresh source.getSource");
+}
+static nix::Section sec_by(char route, long k) {
+    SecInfo &s = live_sec(k);
+    if (route == 'e') return s.has_early ? s.early : s.h;
+    if (route == 'f') return fresh_sec(k);
+    if (route == 'p') {
+        if (s.parent < 0) return need(file.getSection(s.name), "file.getSection");
+        SecInfo &p = secs[s.parent];
+        return need((p.has_early ? p.early : p.h).getSection(s.name), "peeked parent section.getSection");
+    }
+    return s.h;
+}
+static nix::Block blk_by(char route, long b) {
+    BlkInfo &k = live_blk(b);
+    if (route == 'e' || route == 'p') return k.has_early ? k.early : k.h;
+    if (route == 'f') return fresh_blk(b);
+    return k.h;
+}
+static nix::Source src_by(char route, long k) {
+    SrcInfo &s = live_src(k);
+    if (route == 'e') return s.has_early ? s.early : s.h;
+    if (route == 'f') return fresh_src(k);
+    if (route == 'p') {
+        if (s.parent < 0) return need(blk_by('e', s.block).getSource(s.name), "peeked block.getSource");
+        SrcInfo &p = srcs[s.parent];
+        return need((p.has_early ? p.early : p.h).getSource(s.name), "peeked parent source.getSource");
+    }
+    return s.h;
+}
 
 static std::string ref_id(const std::string &t) {
     // an ordinal that was never created names an id that matches nothing
@@ -75,40 +129,101 @@ static std::string show(const std::vector<T> &v, const std::unordered_map<std::s
 }
 
 static void mark_sec_dead(int k) {
-    secs[k].alive = false;
+    secs[k].alive = false; secs[k].h = nix::Section(); secs[k].early = nix::Section(); secs[k].has_early = false;
     for (size_t i = 0; i < secs.size(); i++) if (secs[i].alive && secs[i].parent == k) mark_sec_dead((int)i);
 }
 static void mark_src_dead(int k) {
-    srcs[k].alive = false;
+    srcs[k].alive = false; srcs[k].h = nix::Source(); srcs[k].early = nix::Source(); srcs[k].has_early = false;
     for (size_t i = 0; i < srcs.size(); i++) if (srcs[i].alive && srcs[i].parent == k) mark_src_dead((int)i);
 }
 
-static std::string handle(const std::vector<std::string> &t) {
-    const std::string &c = t[0];
+static void drop_handles() {
+    for (auto &s : secs) { s.h = nix::Section(); s.early = nix::Section(); s.has_early = false; }
+    for (auto &s : srcs) { s.h = nix::Source(); s.early = nix::Source(); s.has_early = false; }
+    for (auto &b : blocks) { b.h = nix::Block(); b.early = nix::Block(); b.has_early = false; b.pos = nix::DataArray(); }
+    for (auto &e : arrays) e.h = nix::DataArray();
+    for (auto &e : tags) e.h = nix::Tag();
+    for (auto &e : mtags) e.h = nix::MultiTag();
+}
+
+// after a reopen: one handle per live entity, parents first, each fetched through its parent's handle
+static void refetch() {
+    for (auto &b : blocks) {
+        b.h = need(file.getBlock(b.name), "reopen getBlock");
+        if (b.has_pos) b.pos = b.h.getDataArray("__pos");
+    }
+    for (auto &s : secs) if (s.alive)
+        s.h = need(s.parent < 0 ? file.getSection(s.name) : secs[s.parent].h.getSection(s.name), "reopen getSection");
+    for (auto &s : srcs) if (s.alive)
+        s.h = need(s.parent < 0 ? blocks[s.block].h.getSource(s.name) : srcs[s.parent].h.getSource(s.name), "reopen getSource");
+    for (auto &e : arrays) if (!e.id.empty()) e.h = blocks[e.block].h.getDataArray(e.name);
+    for (auto &e : tags) if (!e.id.empty()) e.h = blocks[e.block].h.getTag(e.name);
+    for (auto &e : mtags) if (!e.id.empty()) e.h = blocks[e.block].h.getMultiTag(e.name);
+}
+
+static std::string handle(const std::vector<std::string> &t0) {
+    char route = 'c';
+    std::vector<std::string> t = t0;
+    if (t[0].size() == 2 && t[0][0] == '@') { route = t[0][1]; t.erase(t.begin()); }
+    const std::string &c = t.at(0);
     std::ostringstream o;
     if (c == "new") {
-        secs.clear(); srcs.clear(); blocks.clear(); positions.clear(); arrays.clear(); tags.clear(); mtags.clear();
+        secs.clear(); srcs.clear(); blocks.clear(); arrays.clear(); tags.clear(); mtags.clear();
         ord_sec.clear(); ord_src.clear(); ord_blk.clear(); ord_arr.clear(); ord_tag.clear(); ord_mtag.clear(); ord_prop.clear();
         nprops = 0;
         if (file) file.close();
         file = nix::File::open(workdir + "/c20.nix", nix::FileMode::Overwrite);
         return "-";
     }
+    if (c == "reopen") {
+        drop_handles();
+        if (file) file.close();
+        file = nix::File::open(workdir + "/c20.nix", t.at(1) == "ro" ? nix::FileMode::ReadOnly : nix::FileMode::ReadWrite);
+        refetch();
+        return "-";
+    }
+    if (c == "peek") {
+        const std::string &e = t.at(1);
+        long k = tailnum(e);
+        size_t seen = 0;
+        if (e[0] == 'S') {
+            live_sec(k);
+            nix::Section h = fresh_sec(k);
+            seen += h.sectionCount() + h.propertyCount() + h.sections().size() + h.properties().size();
+            secs[k].early = h; secs[k].has_early = true;
+        } else if (e[0] == 'R') {
+            SrcInfo &s = live_src(k);
+            // hang the handle on the peeked handles above it where there are some
+            nix::Source h = need(s.parent < 0 ? blk_by('e', s.block).getSource(s.name)
+                                               : (srcs[s.parent].has_early ? srcs[s.parent].early : fresh_src(s.parent)).getSource(s.name),
+                                 "peek getSource");
+            seen += h.sourceCount() + h.sources().size();
+            s.early = h; s.has_early = true;
+        } else if (e[0] == 'B') {
+            live_blk(k);
+            nix::Block h = fresh_blk(k);
+            seen += h.dataArrayCount() + h.tagCount() + h.multiTagCount() + h.sourceCount() + h.sources().size();
+            blocks[k].early = h; blocks[k].has_early = true;
+        } else throw std::logic_error("bad peek " + e);
+        (void)seen;
+        return "-";
+    }
     if (c == "block") {
         int k = (int)blocks.size();
-        nix::Block b = file.createBlock("b" + std::to_string(k), "blk");
-        blocks.push_back(b);
-        positions.push_back(b.createDataArray("__pos", "pos", nix::DataType::Double, nix::NDSize({1})));
+        std::string name = "b" + std::to_string(k);
+        nix::Block b = file.createBlock(name, "blk");
+        blocks.push_back(BlkInfo{b, nix::Block(), false, name, nix::DataArray(), false});
         ord_blk[b.id()] = k;
         return "B" + std::to_string(k);
     }
     if (c == "sec") {
         int k = (int)secs.size();
         long p = dec_int(t.at(1));
-        secs.push_back(SecInfo{nix::Section(), (int)p, false, "dead-" + std::to_string(k)});
+        std::string name = dec_str(t.at(2));
+        secs.push_back(SecInfo{nix::Section(), nix::Section(), false, (int)p, false, "dead-" + std::to_string(k), name});
         nix::Section s;
-        if (p < 0) s = file.createSection(dec_str(t.at(2)), dec_str(t.at(3)));
-        else s = live_sec(p).h.createSection(dec_str(t.at(2)), dec_str(t.at(3)));
+        if (p < 0) s = file.createSection(name, dec_str(t.at(3)));
+        else s = live_sec(p).h.createSection(name, dec_str(t.at(3)));
         secs[k].h = s; secs[k].alive = true; secs[k].id = s.id();
         ord_sec[s.id()] = k;
         return "S" + std::to_string(k);
@@ -128,14 +243,15 @@ static std::string handle(const std::vector<std::string> &t) {
     if (c == "src") {
         int k = (int)srcs.size();
         long b = dec_int(t.at(1)), p = dec_int(t.at(2));
-        srcs.push_back(SrcInfo{nix::Source(), (int)p, (int)b, false, "dead-" + std::to_string(k)});
-        nix::Block &blk = live_blk(b);
+        std::string name = dec_str(t.at(3));
+        srcs.push_back(SrcInfo{nix::Source(), nix::Source(), false, (int)p, (int)b, false, "dead-" + std::to_string(k), name});
+        BlkInfo &blk = live_blk(b);
         nix::Source s;
-        if (p < 0) s = blk.createSource(dec_str(t.at(3)), dec_str(t.at(4)));
+        if (p < 0) s = blk.h.createSource(name, dec_str(t.at(4)));
         else {
             SrcInfo &ps = live_src(p);
             if (ps.block != b) dead();
-            s = ps.h.createSource(dec_str(t.at(3)), dec_str(t.at(4)));
+            s = ps.h.createSource(name, dec_str(t.at(4)));
         }
         srcs[k].h = s; srcs[k].alive = true; srcs[k].id = s.id();
         ord_src[s.id()] = k;
@@ -144,25 +260,32 @@ static std::string handle(const std::vector<std::string> &t) {
     if (c == "array") {
         int k = (int)arrays.size();
         long b = dec_int(t.at(1));
-        arrays.push_back(EntInfo<nix::DataArray>{nix::DataArray(), (int)b, ""});
-        nix::DataArray a = live_blk(b).createDataArray("a" + std::to_string(k), "arr", nix::DataType::Double, nix::NDSize({1}));
+        std::string name = "a" + std::to_string(k);
+        arrays.push_back(EntInfo<nix::DataArray>{nix::DataArray(), (int)b, "", name});
+        nix::DataArray a = live_blk(b).h.createDataArray(name, "arr", nix::DataType::Double, nix::NDSize({1}));
         arrays[k].h = a; arrays[k].id = a.id(); ord_arr[a.id()] = k;
         return "A" + std::to_string(k);
     }
     if (c == "tag") {
         int k = (int)tags.size();
         long b = dec_int(t.at(1));
-        tags.push_back(EntInfo<nix::Tag>{nix::Tag(), (int)b, ""});
-        nix::Tag a = live_blk(b).createTag("t" + std::to_string(k), "tag", std::vector<double>{0.0});
+        std::string name = "t" + std::to_string(k);
+        tags.push_back(EntInfo<nix::Tag>{nix::Tag(), (int)b, "", name});
+        nix::Tag a = live_blk(b).h.createTag(name, "tag", std::vector<double>{0.0});
         tags[k].h = a; tags[k].id = a.id(); ord_tag[a.id()] = k;
         return "T" + std::to_string(k);
     }
     if (c == "mtag") {
         int k = (int)mtags.size();
         long b = dec_int(t.at(1));
-        mtags.push_back(EntInfo<nix::MultiTag>{nix::MultiTag(), (int)b, ""});
-        nix::Block &blk = live_blk(b);
-        nix::MultiTag a = blk.createMultiTag("m" + std::to_string(k), "mtag", positions[b]);
+        std::string name = "m" + std::to_string(k);
+        mtags.push_back(EntInfo<nix::MultiTag>{nix::MultiTag(), (int)b, "", name});
+        BlkInfo &blk = live_blk(b);
+        if (!blk.has_pos) {     // hidden positions array, created with the first multi-tag of the block
+            blk.pos = blk.h.createDataArray("__pos", "pos", nix::DataType::Double, nix::NDSize({1}));
+            blk.has_pos = true;
+        }
+        nix::MultiTag a = blk.h.createMultiTag(name, "mtag", blk.pos);
         mtags[k].h = a; mtags[k].id = a.id(); ord_mtag[a.id()] = k;
         return "M" + std::to_string(k);
     }
@@ -177,7 +300,7 @@ static std::string handle(const std::vector<std::string> &t) {
         else if (e[0] == 'R') live_src(k);
         else throw std::logic_error("bad entity " + e);
         nix::Section s = live_sec(dec_int(t.at(2))).h;
-        if (e[0] == 'B') blocks[k].metadata(s);
+        if (e[0] == 'B') blocks[k].h.metadata(s);
         else if (e[0] == 'A') arrays[k].h.metadata(s);
         else if (e[0] == 'T') tags[k].h.metadata(s);
         else if (e[0] == 'M') mtags[k].h.metadata(s);
@@ -208,7 +331,7 @@ static std::string handle(const std::vector<std::string> &t) {
     if (c == "delsrc") {
         long k = dec_int(t.at(1));
         SrcInfo &s = live_src(k);
-        bool ok = s.parent < 0 ? blocks[s.block].deleteSource(s.h) : srcs[s.parent].h.deleteSource(s.h);
+        bool ok = s.parent < 0 ? blocks[s.block].h.deleteSource(s.h) : srcs[s.parent].h.deleteSource(s.h);
         if (!ok) throw std::runtime_error("deleteSource returned false");
         mark_src_dead((int)k);
         return "-";
@@ -220,7 +343,7 @@ static std::string handle(const std::vector<std::string> &t) {
         std::vector<nix::Section> r;
         if (start == "file") r = d == "max" ? file.findSections(f) : file.findSections(f, (size_t)dec_u64(d));
         else {
-            nix::Section s = live_sec(tailnum(start)).h;
+            nix::Section s = sec_by(route, tailnum(start));
             r = d == "max" ? s.findSections(f) : s.findSections(f, (size_t)dec_u64(d));
         }
         return show(r, ord_sec);
@@ -230,29 +353,29 @@ static std::string handle(const std::vector<std::string> &t) {
         auto f = parse_filter<nix::Source>(t, 3);
         std::vector<nix::Source> r;
         if (start[0] == 'B') {
-            nix::Block &b = live_blk(tailnum(start));
+            nix::Block b = blk_by(route, tailnum(start));
             r = d == "max" ? b.findSources(f) : b.findSources(f, (size_t)dec_u64(d));
         } else {
-            nix::Source s = live_src(tailnum(start)).h;
+            nix::Source s = src_by(route, tailnum(start));
             r = d == "max" ? s.findSources(f) : s.findSources(f, (size_t)dec_u64(d));
         }
         return show(r, ord_src);
     }
     if (c == "related") {
-        nix::Section s = live_sec(dec_int(t.at(1))).h;
+        nix::Section s = sec_by(route, dec_int(t.at(1)));
         return show(s.findRelated(parse_filter<nix::Section>(t, 2)), ord_sec);
     }
-    if (c == "inherited") return show(live_sec(dec_int(t.at(1))).h.inheritedProperties(), ord_prop);
-    if (c == "refarrays") return show(live_sec(dec_int(t.at(1))).h.referringDataArrays(), ord_arr);
-    if (c == "reftags") return show(live_sec(dec_int(t.at(1))).h.referringTags(), ord_tag);
-    if (c == "refmtags") return show(live_sec(dec_int(t.at(1))).h.referringMultiTags(), ord_mtag);
-    if (c == "refblocks") return show(live_sec(dec_int(t.at(1))).h.referringBlocks(), ord_blk);
-    if (c == "refsources") return show(live_sec(dec_int(t.at(1))).h.referringSources(), ord_src);
-    if (c == "srcarrays") return show(live_src(dec_int(t.at(1))).h.referringDataArrays(), ord_arr);
-    if (c == "srctags") return show(live_src(dec_int(t.at(1))).h.referringTags(), ord_tag);
-    if (c == "srcmtags") return show(live_src(dec_int(t.at(1))).h.referringMultiTags(), ord_mtag);
+    if (c == "inherited") return show(sec_by(route, dec_int(t.at(1))).inheritedProperties(), ord_prop);
+    if (c == "refarrays") return show(sec_by(route, dec_int(t.at(1))).referringDataArrays(), ord_arr);
+    if (c == "reftags") return show(sec_by(route, dec_int(t.at(1))).referringTags(), ord_tag);
+    if (c == "refmtags") return show(sec_by(route, dec_int(t.at(1))).referringMultiTags(), ord_mtag);
+    if (c == "refblocks") return show(sec_by(route, dec_int(t.at(1))).referringBlocks(), ord_blk);
+    if (c == "refsources") return show(sec_by(route, dec_int(t.at(1))).referringSources(), ord_src);
+    if (c == "srcarrays") return show(src_by(route, dec_int(t.at(1))).referringDataArrays(), ord_arr);
+    if (c == "srctags") return show(src_by(route, dec_int(t.at(1))).referringTags(), ord_tag);
+    if (c == "srcmtags") return show(src_by(route, dec_int(t.at(1))).referringMultiTags(), ord_mtag);
     if (c == "parent") {
-        nix::Source p = live_src(dec_int(t.at(1))).h.parentSource();
+        nix::Source p = src_by(route, dec_int(t.at(1))).parentSource();
         std::vector<nix::Source> r;
         if (p) r.push_back(p);
         return show(r, ord_src);
@@ -265,7 +388,7 @@ int main(int argc, char **argv) {
     workdir = argv[2];
     H5Eset_auto2(H5E_DEFAULT, nullptr, nullptr);
     int rc = run_file(argv[1], handle);
-    secs.clear(); srcs.clear(); blocks.clear(); positions.clear(); arrays.clear(); tags.clear(); mtags.clear();
+    secs.clear(); srcs.clear(); blocks.clear(); arrays.clear(); tags.clear(); mtags.clear();
     if (file) file.close();
     return rc;
 }
